@@ -34,20 +34,25 @@ def _collect_subtree(task: 'Task') -> List['Task']:
 
 
 def _has_id_intersection(parent: 'Task', children: Iterable['Task']):
-    parent_root = _find_root(parent)
-    parent_tree = _collect_subtree(parent_root)
+    if parent.wbs is not None:
+        parent_tree = [parent] + [t for t in parent.wbs.tasks]
+    else:
+        parent_root = _find_root(parent)
+        parent_tree = _collect_subtree(parent_root)
     all_children_tasks = []
     for ch in children:
         all_children_tasks += _collect_subtree(ch)
 
     parent_tree_object_ids = set([id(t) for t in parent_tree])
-    new_tasks = [t for t in all_children_tasks if id(t) not in parent_tree_object_ids]
+    new_tasks = list({id(t): t for t in all_children_tasks if id(t) not in parent_tree_object_ids}.values())
 
     if len(new_tasks) == 0:
         return False
 
     parent_tree_ids = set([t.id for t in parent_tree])
     new_task_ids = set([t.id for t in new_tasks])
+    if len(new_task_ids) < len(new_tasks):
+        return True
     return len(parent_tree_ids.intersection(new_task_ids)) > 0
 
 
